@@ -197,7 +197,7 @@ def mode_not_from_unsigned_part(ctx, rule):
                 tainted = mentions(mode, SubC(eng.expand(env_arg), "signatures")) or mentions(mode, SubC(env_arg, "signatures"))
                 ctx.ob(rule, "mode-source|%s|%s" % (q, ev[1].key()), ev[1].loc(), "%s calls %s with a signature mode that %s" % (q, callee.split(".")[-1], "does not depend on the envelope's unsigned signature map" if not tainted else "is computed from the envelope's unsigned 'signatures' part (%s): adding or removing an entry that counts for nothing changes how all the others are judged" % show(mode)[:100]), not tainted)
     ctx.count(rule + ".verifier_calls", n)
-    ctx.floor(rule + ".verifier_calls", 3)
+    ctx.floor(rule + ".verifier_calls", 2)
 
 
 def entries_independent(ctx, rule):
